@@ -44,19 +44,48 @@ def unparse(node: Optional[ast.AST], limit: int = 120) -> str:
     return s if len(s) <= limit else s[: limit - 3] + "..."
 
 
+class _NotConst:
+    def __repr__(self) -> str:
+        return "NOT_CONST"
+
+
+NOT_CONST = _NotConst()
+
+
 class Module:
     def __init__(self, name: str, relpath: str, source: str, is_pkg: bool, normalise: Optional[Set[str]] = None,
-                 role_names: Optional[Set[str]] = None, foreign_attrs: Optional[Set[str]] = None):
+                 role_names: Optional[Set[str]] = None, foreign_attrs: Optional[Set[str]] = None, pkg_consts: Any = None, lit_consts: Any = None):
         self.name = name
         self.relpath = relpath
         self.source = source
         self.is_pkg = is_pkg
         self.tree = ast.parse(source, filename=relpath)
         self.inlined: List[str] = []
-        if "from_list" in source:
+        enums, path_consts = pkg_consts if pkg_consts is not None else ({}, {})
+        imported: Dict[str, ast.AST] = {}
+        for st in self.tree.body:
+            if isinstance(st, ast.ImportFrom) and st.level >= 0:
+                for other, cs in path_consts.items():
+                    if other != name and (st.module or "").split(".")[-1] == other.split(".")[-1]:
+                        for a in st.names:
+                            if a.name in cs:
+                                imported[a.asname or a.name] = cs[a.name]
+        if "from_list" in source or imported:
             from .inline import expand_path_constants
 
-            self.inlined += expand_path_constants(self.tree)
+            self.inlined += expand_path_constants(self.tree, enums, imported)
+        if lit_consts:
+            from .inline import expand_literal_constants
+
+            imp_l: Dict[str, ast.Constant] = {}
+            for st in self.tree.body:
+                if isinstance(st, ast.ImportFrom):
+                    for other, cs in lit_consts.items():
+                        if other != name and (st.module or "").split(".")[-1] == other.split(".")[-1]:
+                            for a in st.names:
+                                if a.name in cs:
+                                    imp_l[a.asname or a.name] = cs[a.name]
+            self.inlined += expand_literal_constants(self.tree, lit_consts.get(name, {}), imp_l)
         if normalise is not None:
             from .inline import normalise as _normalise
 
@@ -212,6 +241,11 @@ class Program:
             except SyntaxError:
                 pass
             mentions[name] = ms
+        from .inline import package_constants
+        pkg_consts = package_constants(sources)
+        from .inline import literal_constants
+        from .known_names import KNOWN_VARS
+        lit_consts = literal_constants(sources, KNOWN_VARS)
         for name, (rel, src, is_pkg) in sorted(sources.items()):
             foreign: Set[str] = set()
             for other, ms in mentions.items():
@@ -219,9 +253,9 @@ class Program:
                     foreign |= ms
             try:
                 if name in norm:
-                    self.modules[name] = Module(name, rel, src, is_pkg, normalise=refs.get(name, set()), role_names=norm[name], foreign_attrs=foreign)
+                    self.modules[name] = Module(name, rel, src, is_pkg, normalise=refs.get(name, set()), role_names=norm[name], foreign_attrs=foreign, pkg_consts=pkg_consts, lit_consts=lit_consts)
                 else:
-                    self.modules[name] = Module(name, rel, src, is_pkg, foreign_attrs=foreign)
+                    self.modules[name] = Module(name, rel, src, is_pkg, foreign_attrs=foreign, pkg_consts=pkg_consts, lit_consts=lit_consts)
             except SyntaxError as e:
                 raise AnalysisError(f"cannot parse {rel}: {e}")
         for m in self.modules.values():
@@ -420,6 +454,23 @@ class Program:
                     return self._canon(".".join([m.imports[head]] + rest), depth + 1)
                 return dotted
         return dotted
+
+    def const_of(self, scope: Union[Module, Func], name: str) -> Any:
+        """the literal bound once, at module level, to this name as seen from scope (through imports inside the package); NOT_CONST otherwise"""
+        f: Optional[Func] = scope if isinstance(scope, Func) else None
+        if f is not None and self.is_local(f, name):
+            return NOT_CONST
+        d = self.resolve_name(scope, name)
+        if d is None:
+            return NOT_CONST
+        mod, _, nm = d.rpartition(".")
+        m = self.modules.get(mod)
+        if m is None or nm not in m.assigns or len(m.assigns[nm]) != 1:
+            return NOT_CONST
+        v = getattr(m.assigns[nm][0], "value", None)
+        if isinstance(v, ast.Constant) and isinstance(v.value, (str, bytes, int, float, bool)):
+            return v.value
+        return NOT_CONST
 
     def func(self, qname: str) -> Optional[Func]:
         """the function known under this dotted name - where it is defined, or where that name is imported from (a private
